@@ -550,9 +550,10 @@ Proof.
     induction IH as [|x l Hx _ IHl]; [reflexivity|]. cbn [map]. f_equal; [exact Hx|exact IHl].
   - cbn [expand_n inline]. unfold ref_target, jget, ref_key.
     destruct (assoc (Str "$ref") l) as [r|] eqn:Er.
-    + destruct r as [| | | |f| |]; try (f_equal; induction IH as [|[k x] l' Hx _ IHl]; [reflexivity|]; cbn [map fst snd] in *; f_equal; [f_equal; exact Hx|exact IHl]).
-      destruct (assoc f st) as [t|]; [apply IHn|reflexivity].
-    + f_equal. induction IH as [|[k x] l' Hx _ IHl]; [reflexivity|]. cbn [map fst snd] in *. f_equal; [f_equal; exact Hx|exact IHl].
+    + destruct r as [| | | |f| |].
+      5: { destruct (assoc f st) as [t|]; [apply IHn|reflexivity]. }
+      all: (clear Er; f_equal; induction IH as [|[k x] l' Hx _ IHl]; [reflexivity|]; cbn [map fst snd] in *; f_equal; [f_equal; exact Hx|exact IHl]).
+    + clear Er. f_equal. induction IH as [|[k x] l' Hx _ IHl]; [reflexivity|]. cbn [map fst snd] in *. f_equal; [f_equal; exact Hx|exact IHl].
 Qed.
 
 Theorem iter_errors_store_lemma st root j errs :
@@ -597,4 +598,360 @@ Theorem list_is_pointwise_lemma tree ds :
 Proof.
   intros Hwf. unfold run_validator. rewrite Hwf.
   induction ds as [|d ds IH]; [reflexivity|]. cbn [get_errors_list map res_concat]. rewrite IH. reflexivity.
+Qed.
+
+(* ------------------------------------------------------------------ messages *)
+Definition msg_field (m : value) (k : str) : option value :=
+  match m with VDict _ items => assoc k items | _ => None end.
+
+(* the dictionary a message is about and, when the error path ends in a key, that key *)
+Definition target (d : value) (e : verr) : res (value * option str) :=
+  match epath e with
+  | [] => Ok (d, None)
+  | _ =>
+      match last (epath e) (PIdx 0) with
+      | PIdx _ => do o <- findkey d (epath e); Ok (o, None)
+      | PKey k => do o <- findkey d (removelast (epath e)); Ok (o, Some k)
+      end
+  end.
+
+(* the name a message carries: the last key of the error path, else the
+   __type__ of the object the path points to *)
+Definition named (d : value) (e : verr) (key : str) : Prop :=
+  exists o ok, target d e = Ok (o, ok) /\
+    match ok with
+    | Some k => key = k
+    | None => getitem o (PKey K_dtype) = Ok (VStr key)
+    end.
+
+Lemma create_message_names d e m :
+  create_message d e = Ok m ->
+  exists key, named d e key /\
+    msg_field m (Str "message") = Some (VStr (msg_prefix ++ upper key)) /\
+    msg_field m (Str "path") = Some (VList (map pelem_value (epath e))) /\
+    msg_field m (Str "validator") = Some (VStr (ekw e)).
+Proof.
+  unfold create_message, named, target. intros H.
+  destruct (epath e) as [|p0 ps] eqn:Ep.
+  - destruct (getitem d (PKey K_dtype)) as [kv|] eqn:Eg; [|discriminate]. cbn [bind] in H.
+    destruct kv as [| | | |key| |]; try discriminate.
+    exists key. split; [exists d, None; auto|].
+    destruct (contains d K_dposition) as [hp|]; [|discriminate]. cbn [bind] in H.
+    destruct hp.
+    + destruct (getitem d (PKey K_dposition)) as [posd|]; [|discriminate]. cbn [bind is_nil] in H.
+      destruct (dict_get posd (Str "line")) as [ln|]; [|discriminate]. cbn [bind] in H.
+      destruct (dict_get posd (Str "column")) as [cl|]; [|discriminate]. cbn [bind] in H.
+      injection H as <-. cbn. auto.
+    + injection H as <-. cbn. auto.
+  - destruct (last (p0 :: ps) (PIdx 0)) as [k|i] eqn:El.
+    + destruct (findkey d (removelast (p0 :: ps))) as [o|] eqn:Ef; [|discriminate]. cbn [bind] in H.
+      exists k. split; [exists o, (Some k); auto|].
+      destruct (contains o K_dposition) as [hp|]; [|discriminate]. cbn [bind] in H.
+      destruct hp.
+      * destruct (getitem o (PKey K_dposition)) as [posd|]; [|discriminate]. cbn [bind is_nil] in H.
+        destruct (contains posd k) as [has|]; [|discriminate]. cbn [bind] in H.
+        destruct (if has then getitem posd (PKey k) else Ok posd) as [pd|]; [|discriminate]. cbn [bind] in H.
+        destruct (dict_get pd (Str "line")) as [ln|]; [|discriminate]. cbn [bind] in H.
+        destruct (dict_get pd (Str "column")) as [cl|]; [|discriminate]. cbn [bind] in H.
+        injection H as <-. cbn. auto.
+      * injection H as <-. cbn. auto.
+    + destruct (findkey d (p0 :: ps)) as [o|] eqn:Ef; [|discriminate]. cbn [bind] in H.
+      destruct (getitem o (PKey K_dtype)) as [kv|] eqn:Eg; [|discriminate]. cbn [bind] in H.
+      destruct kv as [| | | |key| |]; try discriminate.
+      exists key. split; [exists o, None; auto|].
+      destruct (contains o K_dposition) as [hp|]; [|discriminate]. cbn [bind] in H.
+      destruct hp.
+      * destruct (getitem o (PKey K_dposition)) as [posd|]; [|discriminate]. cbn [bind is_nil] in H.
+        destruct (contains posd key) as [has|]; [|discriminate]. cbn [bind] in H.
+        destruct (if has then getitem posd (PKey key) else Ok posd) as [pd|]; [|discriminate]. cbn [bind] in H.
+        destruct (dict_get pd (Str "line")) as [ln|]; [|discriminate]. cbn [bind] in H.
+        destruct (dict_get pd (Str "column")) as [cl|]; [|discriminate]. cbn [bind] in H.
+        injection H as <-. cbn. auto.
+      * injection H as <-. cbn. auto.
+Qed.
+
+Definition message_for (d : value) (e : verr) (m : value) : Prop :=
+  exists key, named d e key /\
+    msg_field m (Str "message") = Some (VStr (msg_prefix ++ upper key)) /\
+    msg_field m (Str "path") = Some (VList (map pelem_value (epath e))) /\
+    msg_field m (Str "validator") = Some (VStr (ekw e)).
+
+(* one message per error, in order, each naming its keyword / object *)
+Theorem messages_cover_lemma d errs msgs :
+  get_error_messages d errs = Ok msgs -> Forall2 (message_for d) errs msgs.
+Proof.
+  revert msgs. induction errs as [|e errs IH]; intros msgs H; cbn [get_error_messages] in H.
+  - injection H as <-. constructor.
+  - destruct (create_message d e) as [m|] eqn:Em; [|discriminate]. cbn [bind] in H.
+    destruct (get_error_messages d errs) as [rest|]; [|discriminate]. cbn [bind] in H.
+    injection H as <-. constructor; [exact (create_message_names d e m Em)|apply IH; reflexivity].
+Qed.
+
+(* ------------------------------------------------------------------ where errors are reported *)
+Lemma in_props_errs (rec : json -> json -> list verr) props inst pk sub x e' :
+  In (pk, sub) props -> assoc pk inst = Some x -> In e' (rec sub x) ->
+  In (push (PKey pk) e') (props_errs rec props inst).
+Proof.
+  intros Hin Hx He. induction props as [|[p s] props IH]; [destruct Hin|].
+  cbn [props_errs]. apply in_or_app. destruct Hin as [[= -> ->]|Hin].
+  - left. rewrite Hx. apply in_map. exact He.
+  - right. apply IH. exact Hin.
+Qed.
+
+(* a keyword whose value violates its schema yields errors located at (or below) that keyword *)
+Theorem violating_property_reported kws props inst pk sub x e' :
+  In (Schema.K_properties, JObj props) kws -> In (pk, sub) props -> assoc pk inst = Some x ->
+  In e' (ierr sub x) ->
+  In (push (PKey pk) e') (ierr (JObj kws) (JObj inst)).
+Proof.
+  intros Hk Hp Hx He. rewrite ierr_unfold. apply in_flat_map.
+  exists (Schema.K_properties, JObj props). split; [exact Hk|]. cbn [fst snd].
+  unfold kw_errs. unfold_keys. ev_goal. eapply in_props_errs; eassumption.
+Qed.
+
+Lemma in_items_loop (rec : json -> json -> list verr) v xs i0 i x e' :
+  nth_error xs i = Some x -> In e' (rec v x) ->
+  In (push (PIdx (i0 + N.of_nat i)) e')
+     ((fix iloop (xs : list json) (i : N) : list verr :=
+         match xs with
+         | [] => []
+         | x :: xs' => map (push (PIdx i)) (rec v x) ++ iloop xs' (N.succ i)
+         end) xs i0).
+Proof.
+  revert i0 i. induction xs as [|y xs IH]; intros i0 i Hn He; [destruct i; discriminate|].
+  apply in_or_app. destruct i as [|i]; cbn [nth_error] in Hn.
+  - injection Hn as ->. left. replace (i0 + N.of_nat 0)%N with i0 by lia. apply in_map. exact He.
+  - right. replace (i0 + N.of_nat (S i))%N with (N.succ i0 + N.of_nat i)%N by lia. apply IH; assumption.
+Qed.
+
+(* an element of a list of objects that violates the item schema yields errors located at its index *)
+Theorem violating_item_reported kws sch xs i x e' :
+  In (K_items, JObj sch) kws -> nth_error xs i = Some x -> In e' (ierr (JObj sch) x) ->
+  In (push (PIdx (N.of_nat i)) e') (ierr (JObj kws) (JArr xs)).
+Proof.
+  intros Hk Hn He. rewrite ierr_unfold. apply in_flat_map.
+  exists (K_items, JObj sch). split; [exact Hk|]. cbn [fst snd].
+  unfold kw_errs. unfold_keys. ev_goal. unfold items_errs.
+  exact (in_items_loop ierr (JObj sch) xs 0%N i x e' Hn He).
+Qed.
+
+(* object-level faults are reported at the object itself *)
+Theorem unknown_keyword_reported kws inst :
+  In (K_additionalProperties, JBool false) kws -> find_additional kws inst <> [] ->
+  In (mk_verr [] K_additionalProperties) (ierr (JObj kws) (JObj inst)).
+Proof.
+  intros Hk Hx. rewrite ierr_unfold. apply in_flat_map.
+  exists (K_additionalProperties, JBool false). split; [exact Hk|]. cbn [fst snd].
+  unfold kw_errs, leaf_errs. unfold_keys. ev_goal.
+  destruct (find_additional kws inst); [congruence|]. left. reflexivity.
+Qed.
+
+Theorem missing_required_reported kws req inst p :
+  In (K_required, JArr req) kws -> In (JStr p) req -> od_mem p inst = false ->
+  In (mk_verr [] K_required) (ierr (JObj kws) (JObj inst)).
+Proof.
+  intros Hk Hp Hm. rewrite ierr_unfold. apply in_flat_map.
+  exists (K_required, JArr req). split; [exact Hk|]. cbn [fst snd].
+  unfold kw_errs, leaf_errs. unfold_keys. ev_goal.
+  apply in_flat_map. exists (JStr p). split; [exact Hp|]. rewrite Hm. left. reflexivity.
+Qed.
+
+(* a keyword without sub-schemas reports at the instance it is applied to *)
+Lemma all_here_flat_map {A} (f : A -> list verr) l :
+  (forall x, Forall (fun e => epath e = []) (f x)) -> Forall (fun e => epath e = []) (flat_map f l).
+Proof.
+  intros H. induction l as [|x l IH]; [constructor|]. cbn [flat_map]. apply Forall_app. auto.
+Qed.
+
+Lemma leaf_errs_here k v kws j : Forall (fun e => epath e = []) (leaf_errs k v kws j).
+Proof.
+  assert (Hh : forall kw, Forall (fun e => epath e = []) (here kw)) by (intros kw; repeat constructor).
+  assert (Hn : Forall (fun e : verr => epath e = []) []) by constructor.
+  unfold leaf_errs.
+  repeat match goal with
+         | |- Forall _ (if ?c then _ else _) => destruct c
+         | |- Forall _ (match ?x with _ => _ end) => destruct x
+         | |- Forall _ (let _ := _ in _) => cbv zeta
+         end; auto.
+  all: apply all_here_flat_map; intros r; destruct r; auto; destruct (od_mem _ _); auto.
+Qed.
+
+(* ------------------------------------------------------------------ never raises: the guarded statement *)
+(* the error is about a dictionary [o] (no error path ending in a list index
+   below a non-object), [o] names itself when the path does not name a key, and
+   carries no position record *)
+Definition guard (d : value) (e : verr) : Prop :=
+  exists c items ok,
+    target d e = Ok (VDict c items, ok) /\
+    contains (VDict c items) K_dposition = Ok false /\
+    (ok = None -> exists key, getitem (VDict c items) (PKey K_dtype) = Ok (VStr key)).
+
+Lemma create_message_guarded d e : guard d e -> exists m, create_message d e = Ok m.
+Proof.
+  intros (c & items & ok & Ht & Hp & Hk). unfold create_message. unfold target in Ht.
+  destruct (epath e) as [|p0 ps] eqn:Ep.
+  - injection Ht as -> <-. destruct (Hk eq_refl) as (key & Hg). rewrite Hg. cbn [bind].
+    rewrite Hp. cbn [bind]. eexists. reflexivity.
+  - destruct (last (p0 :: ps) (PIdx 0)) as [k|i].
+    + destruct (findkey d (removelast (p0 :: ps))) as [o|]; [|discriminate]. cbn [bind] in Ht.
+      injection Ht as -> <-. cbn [bind]. rewrite Hp. cbn [bind]. eexists. reflexivity.
+    + destruct (findkey d (p0 :: ps)) as [o|]; [|discriminate]. cbn [bind] in Ht.
+      injection Ht as -> <-. cbn [bind]. destruct (Hk eq_refl) as (key & Hg). rewrite Hg. cbn [bind].
+      rewrite Hp. cbn [bind]. eexists. reflexivity.
+Qed.
+
+Lemma get_error_messages_guarded d errs :
+  (forall e, In e errs -> guard d e) -> exists msgs, get_error_messages d errs = Ok msgs.
+Proof.
+  induction errs as [|e errs IH]; intros H; [exists []; reflexivity|].
+  destruct (create_message_guarded d e (H e (or_introl eq_refl))) as (m & Hm).
+  destruct (IH (fun e' He' => H e' (or_intror He'))) as (ms & Hms).
+  exists (m :: ms). cbn [get_error_messages]. rewrite Hm, Hms. reflexivity.
+Qed.
+
+Theorem validate_never_raises_guarded_lemma tree d :
+  wf_schema tree = true -> not_list d ->
+  (forall e, In e (ierr tree (to_json (convert_lowercase d))) -> guard d e) ->
+  exists msgs, run_validator tree d = Ok msgs.
+Proof.
+  intros Hwf Hd H. unfold run_validator. rewrite Hwf.
+  destruct d; try (destruct Hd); apply get_error_messages_guarded; exact H.
+Qed.
+
+(* ------------------------------------------------------------------ letter case *)
+From MF Require Import Proofs.CaseFacts Proofs.C17.
+
+Definition lc_items (l acc : list (str * value)) : list (str * value) :=
+  (fix go (l : list (str * value)) (acc : list (str * value)) : list (str * value) :=
+     match l with
+     | [] => acc
+     | (k, v) :: l' => go l' (od_set (lower k) (convert_lowercase v) acc)
+     end) l acc.
+
+Lemma convert_lowercase_dict c items :
+  convert_lowercase (VDict c items) = VDict DPlain (lc_items items []).
+Proof. reflexivity. Qed.
+
+Lemma lc_items_setall l acc :
+  lc_items l acc = od_setall (map (fun kv => (lower (fst kv), convert_lowercase (snd kv))) l) acc.
+Proof.
+  revert acc. induction l as [|[k v] l IH]; intros acc; [reflexivity|].
+  cbn [map fst snd]. unfold od_setall. cbn [fold_left fst snd]. apply IH.
+Qed.
+
+Lemma In_setall {A} (e d : list (str * A)) kv :
+  In kv (od_setall e d) -> In kv e \/ In kv d.
+Proof.
+  revert d. induction e as [|[k v] e IH]; intros d H; [right; exact H|].
+  unfold od_setall in H. cbn [fold_left fst snd] in H. apply IH in H.
+  destruct H as [H|H]; [left; right; exact H|].
+  unfold od_set in H. destruct (od_mem k d).
+  - clear IH. induction d as [|[k' v'] d IHd]; [destruct H|]. cbn [od_replace] in H.
+    destruct (str_eqb_spec k k') as [->|Hne].
+    + destruct H as [<-|H]; [left; left; reflexivity|right; right; exact H].
+    + destruct H as [<-|H]; [right; left; reflexivity|].
+      destruct (IHd H) as [H'|H']; [left; exact H'|right; right; exact H'].
+  - apply in_app_or in H. destruct H as [H|[<-|[]]]; [right; exact H|left; left; reflexivity].
+Qed.
+
+Theorem convert_lowercase_idem d : convert_lowercase (convert_lowercase d) = convert_lowercase d.
+Proof.
+  induction d as [| | | | |l IH|c items IH] using value_ind'; try reflexivity.
+  - cbn [convert_lowercase]. rewrite lower_idem. reflexivity.
+  - cbn [convert_lowercase]. f_equal. rewrite map_map.
+    induction IH as [|x l Hx _ IHl]; [reflexivity|]. cbn [map]. rewrite Hx, IHl. reflexivity.
+  - rewrite !convert_lowercase_dict. f_equal.
+    set (X := lc_items items []).
+    assert (HX : X = od_setall (map (fun kv => (lower (fst kv), convert_lowercase (snd kv))) items) [])
+      by apply lc_items_setall.
+    assert (Hnd : NoDup (keys X)) by (rewrite HX; apply NoDup_setall; constructor).
+    rewrite lc_items_setall.
+    assert (Hmap : map (fun kv => (lower (fst kv), convert_lowercase (snd kv))) X = X).
+    { assert (Hin : forall kv, In kv X -> (lower (fst kv), convert_lowercase (snd kv)) = kv).
+      { intros [k v] Hkv. rewrite HX in Hkv. apply In_setall in Hkv. destruct Hkv as [Hkv|[]].
+        apply in_map_iff in Hkv. destruct Hkv as ([k0 v0] & [= <- <-] & Hin0). cbn [fst snd].
+        rewrite lower_idem. f_equal. rewrite Forall_forall in IH. exact (IH _ Hin0). }
+      clear HX Hnd. induction X as [|kv X IHX]; [reflexivity|]. cbn [map].
+      rewrite (Hin kv (or_introl eq_refl)), (IHX (fun kv' H' => Hin kv' (or_intror H'))). reflexivity. }
+    rewrite Hmap. apply setall_self. exact Hnd.
+Qed.
+
+Lemma run_validator_single tree d :
+  not_list d ->
+  run_validator tree d =
+  if wf_schema tree then get_error_messages d (ierr tree (to_json (convert_lowercase d))) else Err PyValueError.
+Proof. intros Hd. unfold run_validator. destruct d; try (destruct Hd); reflexivity. Qed.
+
+(* the verdict only depends on the lower-cased form *)
+Theorem verdict_depends_on_lowercase_lemma tree d d' :
+  not_list d -> not_list d' -> convert_lowercase d = convert_lowercase d' ->
+  (run_validator tree d = Ok [] <-> run_validator tree d' = Ok []).
+Proof.
+  intros Hd Hd' Heq. rewrite (run_validator_single tree d Hd), (run_validator_single tree d' Hd').
+  destruct (wf_schema tree); [|tauto].
+  rewrite !get_error_messages_nil, Heq. tauto.
+Qed.
+
+(* changing only the letter case of keys and string values *)
+Fixpoint recase (f : str -> str) (d : value) : value :=
+  match d with
+  | VStr s => VStr (f s)
+  | VList l => VList (map (recase f) l)
+  | VDict c items =>
+      VDict c ((fix go (l : list (str * value)) : list (str * value) :=
+                  match l with
+                  | [] => []
+                  | (k, v) :: l' => (f k, recase f v) :: go l'
+                  end) items)
+  | _ => d
+  end.
+
+Theorem recase_same_lowercase f d :
+  (forall s, lower (f s) = lower s) -> convert_lowercase (recase f d) = convert_lowercase d.
+Proof.
+  intros Hf. induction d as [| | | | |l IH|c items IH] using value_ind'; try reflexivity.
+  - cbn [recase convert_lowercase]. rewrite Hf. reflexivity.
+  - cbn [recase convert_lowercase]. f_equal. rewrite map_map.
+    induction IH as [|x l Hx _ IHl]; [reflexivity|]. cbn [map]. rewrite Hx, IHl. reflexivity.
+  - cbn [recase]. rewrite !convert_lowercase_dict. f_equal.
+    assert (G : forall acc,
+               lc_items ((fix go (l : list (str * value)) : list (str * value) :=
+                            match l with
+                            | [] => []
+                            | (k, v) :: l' => (f k, recase f v) :: go l'
+                            end) items) acc = lc_items items acc).
+    { induction IH as [|[k v] l Hx _ IHl]; intros acc; [reflexivity|].
+      cbn [lc_items]. cbn [snd] in Hx. rewrite Hf, Hx. apply IHl. }
+    apply G.
+Qed.
+
+(* ------------------------------------------------------------------ hidden keys *)
+Definition hidden_pat : str := Str "^__[a-z]+__$".
+
+Lemma rx_hidden k : rx_search hidden_pat k = at_end hidden_key k.
+Proof. reflexivity. Qed.
+
+(* a key matched by one of the schema's patternProperties is never "additional" *)
+Lemma pattern_key_not_additional kws pps pat inst k x :
+  assoc K_patternProperties kws = Some (JObj pps) -> In pat (keys pps) -> rx_search pat k = true ->
+  ~ In (k, x) (find_additional kws inst).
+Proof.
+  intros Hp Hin Hm H. unfold find_additional in H. rewrite Hp in H.
+  apply filter_In in H. destruct H as [_ H]. cbn [fst] in H.
+  rewrite andb_true_iff in H. destruct H as [_ H].
+  assert (E : existsb (fun p => rx_search p k) (keys pps) = true).
+  { apply existsb_exists. exists pat. auto. }
+  rewrite E in H. discriminate.
+Qed.
+
+(* the empty schema {} accepts everything, so a patternProperties entry
+   "^__[a-z]+__$": {} contributes no error *)
+Lemma empty_schema_no_errors x : ierr (JObj []) x = [].
+Proof. reflexivity. Qed.
+
+Lemma empty_pattern_no_errors pat inst : pprops_errs ierr [(pat, JObj [])] inst = [].
+Proof.
+  cbn [pprops_errs]. rewrite app_nil_r.
+  induction inst as [|[mk x] inst IH]; [reflexivity|]. rewrite IH.
+  destruct (rx_search pat mk); reflexivity.
 Qed.
